@@ -346,6 +346,22 @@ pub fn run_check(spec: &PropSpec, tier: &str, base_seed: u64, threads: usize) ->
             "handler_modes": crate::families::C11X_MODES,
         });
     }
+    if let Some(n) = fam_runs.get("C13X") {
+        let le2 = crate::families::c13x_total_le(2);
+        let le3 = crate::families::c13x_total_le(3);
+        ev["coverage"]["event_sequence_enumeration"] = json!({
+            "family": "C13X",
+            "points_executed": n,
+            "points_covering_every_sequence_of_length_le_2": le2,
+            "points_covering_every_sequence_of_length_le_3": le3,
+            "all_sequences_of_length_le_2_executed": *n >= le2,
+            "all_sequences_of_length_le_3_executed": *n >= le3,
+            "points_in_the_enumeration_up_to_length_4": crate::families::c13x_total(),
+            "letters": crate::families::C13X_LETTERS,
+            "configurations": crate::families::C13X_CONFIGS,
+            "letters_are": "start next operation of sender 0..2, drop pending operation of sender 0..2, peer acknowledges, write back-pressure on, off; start / drop also 0, 1, 2 task polls behind the previous letter",
+        });
+    }
     if let Some(n) = fam_runs.get("C16X") {
         let total = crate::families::c16x_total();
         let le2 = crate::families::c16x_total_le2();
